@@ -10,8 +10,11 @@
    attached), AnswerLost as refused dials, an empty pool as a dial delay. *)
 EXTENDS Tunnel
 
+(* A reserve is only killed in the pool if it is the one Pop takes next. *)
+G_Cut(k) == (car[k] = "pool" => \A j \in Carriers : j < k => car[j] # "pool") /\ Cut(k)
+
 GenNext ==
   \/ ClientNext \/ ServerNext \/ EnvNext
-  \/ \E k \in Carriers : Cut(k) \/ Freeze(k) \/ AnswerLost(k)
+  \/ \E k \in Carriers : G_Cut(k) \/ Freeze(k) \/ AnswerLost(k)
 GenSpec == Init /\ [][GenNext]_vars
 =============================================================================
